@@ -31,7 +31,7 @@ OPS = ["app_scalar", "app_array", "app_bcast", "app_default", "kill_first", "kil
 
 
 class InvariantBroken(Exception):
-    pass
+    _vmon_target = True  # a broken contract is a verdict about the code under test, also when it fires inside a ladim run
 
 
 _st: dict[str, Any] = dict(n=0, installed=False)
